@@ -101,11 +101,12 @@ def elem_loops(F, f, stop=None, depth=2):
     """all element loops written in f (not in its closures)"""
     out = []
     eng = Engine(F, stop or (lambda n: False), depth, 3000)
-    consumers = ("for_each", "min", "max", "sum", "all", "any", "count", "try_for_each", "fold")
+    consumers = ("for_each", "min", "max", "sum", "all", "any", "count", "try_for_each", "fold", "collect")
     for b, t in f.calls():
         last = t["callee"].split("::")[-1]
-        if t["callee"].startswith("std::iter::Iterator::") and last in consumers and t["args"]:
-            it = f.op_origin(t["args"][0])
+        is_extend = t["callee"] == "std::iter::Extend::extend" and len(t["args"]) == 2
+        if (t["callee"].startswith("std::iter::Iterator::") and last in consumers and t["args"]) or is_extend:
+            it = f.op_origin(t["args"][1 if is_extend else 0])
             adaptors = []
             cur = it
             while cur[0] == "call" and cur[1].split("::")[-1] in ("map", "filter", "inspect") and cur[1].startswith("std::iter::Iterator::") and len(cur[2]) == 2:
@@ -121,6 +122,11 @@ def elem_loops(F, f, stop=None, depth=2):
             elif adaptors:
                 body_clo = adaptors[-1][1]          # innermost map closure sees the raw item
             bodies = None
+            if last == "fold" and len(t["args"]) == 3 and not adaptors:
+                # fold(init, |acc, x| ..): the closure is the per-element body (its accumulator stays symbolic)
+                cp = eng.closure_paths(f.op_origin(t["args"][2]), [("unknown", "acc"), item], depth, (f.name,))
+                if cp is not None:
+                    bodies = [SPath(f, [b], atoms, events, stores, val, [b]) for atoms, events, stores, val in cp]
             if body_clo is not None:
                 cp = eng.closure_paths(body_clo, [item], depth, (f.name,))
                 if cp is None and body_clo[0] == "fnconst":
@@ -133,7 +139,7 @@ def elem_loops(F, f, stop=None, depth=2):
             if last == "fold" and len(t["args"]) == 3:
                 extra["fold_init"] = f.op_origin(t["args"][1])
                 extra["fold_fn"] = f.op_origin(t["args"][2])
-            out.append(ElemLoop(f, b, last, leaves, item, bodies, extra=extra))
+            out.append(ElemLoop(f, b, "extend" if is_extend else last, leaves, item, bodies, extra=extra))
     # `for` loops: a call to Iterator::next inside a CFG cycle whose result is matched on
     heads = back_edge_heads(f)
     for b, t in f.calls():
